@@ -21,12 +21,14 @@ type Res struct {
 	JSONText bool
 }
 
-func val(v any) Res               { return Res{Val: v} }
-func fail(cats ...string) Res     { return Res{Err: cats} }
-func unsure(why string) Res       { return Res{U: why} }
-func (r Res) bad() bool           { return len(r.Err) > 0 || r.U != "" || len(r.Alts) > 0 || r.Approx || r.JSONText }
-func (r Res) Determinate() bool   { return r.U == "" }
-func (r Res) IsError() bool       { return len(r.Err) > 0 }
+func val(v any) Res           { return Res{Val: v} }
+func fail(cats ...string) Res { return Res{Err: cats} }
+func unsure(why string) Res   { return Res{U: why} }
+func (r Res) bad() bool {
+	return len(r.Err) > 0 || r.U != "" || len(r.Alts) > 0 || r.Approx || r.JSONText
+}
+func (r Res) Determinate() bool { return r.U == "" }
+func (r Res) IsError() bool     { return len(r.Err) > 0 }
 
 // collapse turns an inner alternative set into an abstention (alternatives are
 // only judged at the top level).
